@@ -171,8 +171,11 @@ def run(ctx):
     # ---------------- R7 transition table
     for name, b in sorted(fn.items()):
         evs = [e for e in atomic_events(b) if e["field"] and e["field"].endswith(STATE)]
-        got = sorted(((e["op"].replace("_weak", ""), tuple(e["vals"])) for e in evs), key=str)
+        # loads are observations, not transitions: how often a function reads the state is not part of the protocol
+        got = sorted(((e["op"].replace("_weak", ""), tuple(e["vals"])) for e in evs if e["op"] != "load"), key=str)
         want = TRANSITIONS.get(name)
+        if want is not None:
+            want = [w for w in want if w[0] != "load"]
         if want is None:
             if got:
                 ctx.ob("R7.transition-table", f"{name}", False, b.loc(), f"function not in the protocol table performs {got} on the state byte")
